@@ -8,7 +8,8 @@ freedom so that the rules see one spelling:
 * ``a > b`` -> ``b < a``;  ``a >= b`` -> ``b <= a``
 * ``a == b`` / ``a != b``: a literal operand goes to the right, otherwise the operands are ordered by their text
 * ``a < b < c`` -> ``a < b and b < c`` when ``b`` is a name, an attribute chain or a constant
-* ``not (a == b)`` -> ``a != b`` (and the other single comparisons), ``not not c`` -> ``c``
+* ``not (a == b)`` -> ``a != b`` (and the other single comparisons), ``not not c`` -> ``c``, ``not (A and B)`` -> ``not A or not B``
+* ``a, b = x, y`` -> ``a = x; b = y`` when no right-hand side mentions a target
 * ``X if not c else Y`` -> ``Y if c else X``;  ``if not c: A else: B`` -> ``if c: B else: A`` (no elif chain); the same for the
   negative comparisons ``!=``, ``not in``, ``is not`` and for ``a <= b`` (written ``b < a`` with the branches exchanged)
 * ``range(0, n)`` -> ``range(n)``;  ``1 + i`` -> ``i + 1`` (integer constant operand of + and * goes to the right)
@@ -85,6 +86,11 @@ class Canon(ast.NodeTransformer):
         self.generic_visit(node)
         if isinstance(node.op, ast.Not):
             x = node.operand
+            if isinstance(x, ast.BoolOp):
+                # De Morgan: the negation goes to the operands (and from there into comparisons)
+                op = ast.Or() if isinstance(x.op, ast.And) else ast.And()
+                vals = [self.visit_UnaryOp(ast.copy_location(ast.UnaryOp(op=ast.Not(), operand=v), v)) for v in x.values]
+                return ast.copy_location(ast.BoolOp(op=op, values=vals), node)
             if isinstance(x, ast.UnaryOp) and isinstance(x.op, ast.Not):
                 return x.operand
             if isinstance(x, ast.Compare) and len(x.ops) == 1 and type(x.ops[0]) in _NEG:
@@ -170,14 +176,34 @@ class Canon(ast.NodeTransformer):
         return node
 
     # -- statement lists: t = E; return t  ->  return E
+    @staticmethod
+    def _split_tuple_assign(st: ast.stmt) -> List[ast.stmt]:
+        """a, b = x, y  ->  a = x; b = y   when the targets are plain names and no right-hand side mentions a target (so the
+        simultaneous assignment is the sequential one)"""
+        if isinstance(st, ast.Assign) and len(st.targets) == 1 and isinstance(st.targets[0], ast.Tuple) and isinstance(st.value, ast.Tuple) \
+                and len(st.targets[0].elts) == len(st.value.elts) >= 2 and all(isinstance(t, ast.Name) for t in st.targets[0].elts) \
+                and not any(isinstance(v, ast.Starred) for v in st.value.elts):
+            names = {t.id for t in st.targets[0].elts}
+            if len(names) == len(st.targets[0].elts) and not any(isinstance(n, ast.Name) and n.id in names for v in st.value.elts for n in ast.walk(v)):
+                return [ast.copy_location(ast.Assign(targets=[ast.copy_location(ast.Name(id=t.id, ctx=ast.Store()), t)], value=v), st) for t, v in zip(st.targets[0].elts, st.value.elts)]
+        return [st]
+
     def _stmts(self, stmts: List[ast.stmt]) -> List[ast.stmt]:
-        stmts = [self._yield_loop(st) for st in stmts]
+        stmts = [x for st in stmts for x in self._split_tuple_assign(self._yield_loop(st))]
         out: List[ast.stmt] = []
         i = 0
         while i < len(stmts):
             st = stmts[i]
             nxt = stmts[i + 1] if i + 1 < len(stmts) else None
             # x = list(E); x.sort(**kw)  ->  x = sorted(E, **kw)
+            if isinstance(st, ast.Assign) and len(st.targets) == 1 and isinstance(st.targets[0], ast.Name) and isinstance(st.value, ast.ListComp) and isinstance(nxt, ast.Expr) \
+                    and isinstance(nxt.value, ast.Call) and isinstance(nxt.value.func, ast.Attribute) and nxt.value.func.attr == "sort" and isinstance(nxt.value.func.value, ast.Name) \
+                    and nxt.value.func.value.id == st.targets[0].id and not nxt.value.args:
+                # x = [..comprehension..]; x.sort(**kw)  ->  x = sorted([..], **kw)
+                call = ast.copy_location(ast.Call(func=ast.Name(id="sorted", ctx=ast.Load()), args=[st.value], keywords=nxt.value.keywords), st.value)
+                out.append(ast.copy_location(ast.Assign(targets=st.targets, value=call), st))
+                i += 2
+                continue
             if isinstance(st, ast.Assign) and len(st.targets) == 1 and isinstance(st.targets[0], ast.Name) and isinstance(st.value, ast.Call) and isinstance(st.value.func, ast.Name) \
                     and st.value.func.id == "list" and len(st.value.args) == 1 and not st.value.keywords and isinstance(nxt, ast.Expr) and isinstance(nxt.value, ast.Call) \
                     and isinstance(nxt.value.func, ast.Attribute) and nxt.value.func.attr == "sort" and isinstance(nxt.value.func.value, ast.Name) and nxt.value.func.value.id == st.targets[0].id \
